@@ -56,7 +56,9 @@ def _stub_numerics():
 
 def _check_mutator(name, fs, mutate):
     _stub_numerics()
-    v0 = fs.values                      # populate the cache: INV_lazy holds (just computed)
+    # a cache entry valid for the current definition (what the lazy_property getter leaves behind:
+    # lazy_property_caches_once_and_recomputes_after_clear); its content is irrelevant for INV_lazy
+    fs._lazy_values = symarr("cached_values", len(fs.times))
     prove(name + ":cache-populated", _cached(fs))
     before = _defining_state(fs)
     mutate(fs)
@@ -148,7 +150,7 @@ def derived_signals_start_without_stale_cache():
     """copy / + / * / with_times return objects whose cache (if any) belongs to their own definition"""
     _stub_numerics()
     fs, times = _signal(2)
-    v = fs.values
+    fs._lazy_values = symarr("cached_values", len(fs.times))
     for name, make in (("copy", lambda s: s.copy()), ("mul", lambda s: s * real("c1")), ("rmul", lambda s: real("c2") * s),
                        ("truediv", lambda s: s / real("c3")), ("add", lambda s: s + s.copy())):
         r = make(fs)
@@ -225,3 +227,65 @@ def lazy_property_caches_once_and_recomputes_after_clear():
     y = real("y")
     d.x = y
     prove("recomputed-after-defining-attribute-changed", And(eq(d.doubled, 2 * y), len(calls) == 2))
+
+
+# ---------------------------------------------------------------------------
+# second sentence of the property: values is the eager evaluation of the definition
+# ---------------------------------------------------------------------------
+
+@harness(clause="eager-definition", label="B")
+def buffer_extended_grid_and_window():
+    """_full_times(i) is the signal's grid extended by ceil(buffer/dt) samples on either side with the same
+    spacing, and _value_window(i) selects exactly the signal's own samples out of it"""
+    fs, times = _signal(1)
+    n = len(times)
+    dt = times[1] - times[0]
+    ft = fs._full_times(0)
+    w = fs._value_window(0)
+    nb = w.start
+    lead, trail = fs._buffers[0]
+    lemma("leading-samples=ceil(lead/dt)", And(nb >= 0, nb * dt >= lead, (nb - 1) * dt < lead))
+    lemma("window-has-the-signal's-length", w.stop - w.start == n)
+    na = len(ft) - nb - n
+    lemma("trailing-samples=ceil(trail/dt)", And(na >= 0, na * dt >= trail, (na - 1) * dt < trail))
+    lemma("window-inside-grid", And(w.stop <= len(ft), len(ft) == nb + n + na))
+    j = fresh_index("j", n)
+    prove("window-selects-the-signal's-own-times", eq(ft[nb + j], times[j]))
+    m = fresh_index("m", len(ft))
+    prove("leading-part-continues-the-grid-backwards", implies(m < nb, eq(ft[m], times[0] - (nb - m) * dt)))
+    prove("trailing-part-continues-the-grid-forwards", implies(m >= nb + n, eq(ft[m], times[n - 1] + (m - nb - n + 1) * dt)))
+
+
+F_filt = ufunc("filtered")
+
+
+@harness(clause="eager-definition", label="B")
+def values_is_sum_of_windowed_filtered_scaled_components():
+    """values[j] = sum over components of window(filters(factor * f(full_times - t0)))[j]; a component
+    without filters is not passed through the filter pipeline at all; _apply_filters is called once
+    per filtered component with that component's own filter list"""
+    fs, times = _signal(2)
+    calls = []
+
+    def apply_stub(self, input_vals, filters):
+        calls.append((input_vals, filters))
+        out = symarr("filtered_%d" % len(calls), len(input_vals))
+        return out
+    use_stub("pyrex.signals.FunctionSignal._apply_filters", apply_stub)
+    v = fs.values
+    n = len(times)
+    prove("one-value-per-time", len(v) == n)
+    prove("filter-pipeline-entered-once-for-the-filtered-component-only", len(calls) == 1)
+    inp, flt = calls[0]
+    prove("with-its-own-filter-list", flt is fs._filters[0])
+    ft0 = fs._full_times(0)
+    ft1 = fs._full_times(1)
+    m = fresh_index("m", len(ft0))
+    prove("filter-input-is-scaled-function-on-extended-grid", And(len(inp) == len(ft0),
+          eq(inp[m], fs._functions[0](ft0[m] - fs._t0s[0]) * fs._factors[0])))
+    j = fresh_index("j", n)
+    w0 = fs._value_window(0)
+    w1 = fs._value_window(1)
+    filtered = symarr("filtered_1", len(inp))
+    comp1 = fs._functions[1](ft1[w1.start + j] - fs._t0s[1]) * fs._factors[1]
+    prove("sum-of-components", eq(v[j], filtered[w0.start + j] + comp1))
